@@ -107,16 +107,17 @@ const (
 var c7howNames = [...]string{"root", "With", "WithLazy", "Named", "WithOptions(Fields)", "Sugar.With", "slog.WithAttrs"}
 
 type c7node struct {
-	id     int
-	parent *c7node
-	how    int
-	name   string // own name segment (Named)
-	fields []c7field
-	lazy   bool
-	forced bool
-	owner  int // task that owns it (-1 shared)
-	lg     *zap.Logger
-	sl     *slog.Logger // slog nodes only
+	id       int
+	parent   *c7node
+	how      int
+	name     string // own name segment (Named)
+	fields   []c7field
+	lazy     bool
+	forced   bool
+	owner    int // task that owns it (-1 shared)
+	viaSugar bool
+	lg       *zap.Logger
+	sl       *slog.Logger // slog nodes only
 }
 
 type c7leaf struct {
@@ -431,6 +432,7 @@ func runC07(c *Ctx) {
 				op.how = 1 + g.Weighted(4, 3, 2, 1, 2, 1)
 			}
 			op.newID = len(gn)
+			op.front = g.Draw(2) // 1 = through the sugared equivalent
 			if op.how == c7Slog && g.Chance(3) {
 				op.group = fmt.Sprintf("g%d", op.newID)
 			}
@@ -524,22 +526,35 @@ func runC07(c *Ctx) {
 				n.lg = p.lg.With(w.zapFields(op.fields)...)
 			case c7WithLazy:
 				n.fields = append([]c7field(nil), op.fields...)
+				n.viaSugar = op.front == 1
 				for i := range n.fields {
 					if n.fields[i].kind == c7Mut {
 						n.fields[i].lz = &c7lazy{}
 					}
 				}
 				n.lazy = true
-				n.lg = p.lg.WithLazy(w.zapFields(op.fields)...)
+				if op.front == 1 {
+					n.lg = p.lg.Sugar().WithLazy(w.sugarArgs(op.fields)...).Desugar()
+				} else {
+					n.lg = p.lg.WithLazy(w.zapFields(op.fields)...)
+				}
 			case c7Named:
 				n.name = op.name
-				n.lg = p.lg.Named(op.name)
+				if op.front == 1 {
+					n.lg = p.lg.Sugar().Named(op.name).Desugar()
+				} else {
+					n.lg = p.lg.Named(op.name)
+				}
 			case c7Options:
 				n.fields = w.snapshot(op.fields)
 				if mutation {
 					w.force(p)
 				}
-				n.lg = p.lg.WithOptions(zap.Fields(w.zapFields(op.fields)...))
+				if op.front == 1 {
+					n.lg = p.lg.Sugar().WithOptions(zap.Fields(w.zapFields(op.fields)...)).Desugar()
+				} else {
+					n.lg = p.lg.WithOptions(zap.Fields(w.zapFields(op.fields)...))
+				}
 			case c7SugarWith:
 				n.fields = w.snapshot(op.fields)
 				if mutation {
